@@ -14,7 +14,7 @@ import (
 )
 
 // durationNs evaluates expressions of the form N, time.Unit, N * time.Unit (any nesting of *).
-func durationNs(c *Ctx, e ast.Expr) (int64, error) {
+func r2DurationNs(c *Ctx, e ast.Expr) (int64, error) {
 	switch v := e.(type) {
 	case *ast.BasicLit:
 		if v.Kind == token.INT {
@@ -22,7 +22,7 @@ func durationNs(c *Ctx, e ast.Expr) (int64, error) {
 			return n, err
 		}
 	case *ast.ParenExpr:
-		return durationNs(c, v.X)
+		return r2DurationNs(c, v.X)
 	case *ast.SelectorExpr:
 		if id, ok := v.X.(*ast.Ident); ok && id.Name == "time" {
 			switch v.Sel.Name {
@@ -40,11 +40,11 @@ func durationNs(c *Ctx, e ast.Expr) (int64, error) {
 		}
 	case *ast.BinaryExpr:
 		if v.Op == token.MUL {
-			a, err := durationNs(c, v.X)
+			a, err := r2DurationNs(c, v.X)
 			if err != nil {
 				return 0, err
 			}
-			b, err := durationNs(c, v.Y)
+			b, err := r2DurationNs(c, v.Y)
 			if err != nil {
 				return 0, err
 			}
@@ -54,7 +54,7 @@ func durationNs(c *Ctx, e ast.Expr) (int64, error) {
 	return 0, fmt.Errorf("not a duration constant expression: %s", c.Expr(e))
 }
 
-func constExpr(c *Ctx, dir, name string) (ast.Expr, error) {
+func r2ConstExpr(c *Ctx, dir, name string) (ast.Expr, error) {
 	p, err := c.Pkg(dir)
 	if err != nil {
 		return nil, err
@@ -80,7 +80,7 @@ func constExpr(c *Ctx, dir, name string) (ast.Expr, error) {
 
 // stmtStrings renders the top-level statements of a function body, one string per statement,
 // with `if` statements reduced to "if <cond>".
-func stmtStrings(c *Ctx, fd *ast.FuncDecl) []string {
+func r2StmtStrings(c *Ctx, fd *ast.FuncDecl) []string {
 	var out []string
 	for _, st := range fd.Body.List {
 		switch v := st.(type) {
@@ -102,11 +102,11 @@ func init() {
 		var sb strings.Builder
 		sb.WriteString("namespace Scion.Gen.Epic\n")
 		for _, n := range []string{"MaxPacketLifetime", "MaxClockSkew", "TimestampResolution"} {
-			e, err := constExpr(c, "pkg/experimental/epic", n)
+			e, err := r2ConstExpr(c, "pkg/experimental/epic", n)
 			if err != nil {
 				return err
 			}
-			v, err := durationNs(c, e)
+			v, err := r2DurationNs(c, e)
 			if err != nil {
 				return err
 			}
@@ -130,9 +130,182 @@ func init() {
 		if err != nil {
 			return err
 		}
-		sts := stmtStrings(c, fd)
+		sts := r2StmtStrings(c, fd)
 		fmt.Fprintf(&sb, "/-- top-level statements of `scionPacketProcessor.processEPIC`, in source order -/\ndef processEPICStmts : List String := %s\n", LeanStrList(sts))
 		sb.WriteString("end Scion.Gen.Epic\n")
 		return c.Emit("Epic.lean", sb.String())
 	})
+}
+
+// ---- group r2bfd -------------------------------------------------------------------------------
+
+var r2BfdStateNum = map[string]int{"stateAdminDown": 0, "stateDown": 1, "stateInit": 2, "stateUp": 3}
+var r2BfdEventNum = map[string]int{"eventAdminDown": 0, "eventDown": 1, "eventInit": 2, "eventUp": 3, "eventTimer": 4, "eventAdminUp": 5}
+
+// returnedIdent: the identifier returned by a case body of the form `return <ident>`.
+func r2ReturnedIdent(body []ast.Stmt) (string, bool) {
+	if len(body) != 1 {
+		return "", false
+	}
+	rs, ok := body[0].(*ast.ReturnStmt)
+	if !ok || len(rs.Results) != 1 {
+		return "", false
+	}
+	id, ok := rs.Results[0].(*ast.Ident)
+	if !ok {
+		return "", false
+	}
+	return id.Name, true
+}
+
+// r2CalleesInOrder lists the method names called on receiver `recv` in the body, in source order.
+func r2CalleesInOrder(fd *ast.FuncDecl, recv string) []string {
+	var out []string
+	ast.Inspect(fd.Body, func(n ast.Node) bool {
+		ce, ok := n.(*ast.CallExpr)
+		if !ok {
+			return true
+		}
+		if se, ok := ce.Fun.(*ast.SelectorExpr); ok {
+			if id, ok := se.X.(*ast.Ident); ok && id.Name == recv {
+				out = append(out, se.Sel.Name)
+			}
+		}
+		return true
+	})
+	return out
+}
+
+func r2SingleReturnExpr(c *Ctx, fd *ast.FuncDecl) (string, error) {
+	var exprs []string
+	for _, st := range fd.Body.List {
+		if rs, ok := st.(*ast.ReturnStmt); ok && len(rs.Results) == 1 {
+			exprs = append(exprs, c.Expr(rs.Results[0]))
+		}
+	}
+	if len(fd.Body.List) != 1 || len(exprs) != 1 {
+		return "", fmt.Errorf("%s is not a single return statement", fd.Name.Name)
+	}
+	return exprs[0], nil
+}
+
+func init() {
+	register("r2bfd", func(c *Ctx) error {
+		fd, err := c.Func("router/bfd", "", "transition")
+		if err != nil {
+			return err
+		}
+		var rows []string
+		var outer *ast.SwitchStmt
+		for _, st := range fd.Body.List {
+			if sw, ok := st.(*ast.SwitchStmt); ok {
+				outer = sw
+			}
+		}
+		if outer == nil {
+			return fmt.Errorf("transition: no switch statement")
+		}
+		for _, cc := range outer.Body.List {
+			oc := cc.(*ast.CaseClause)
+			if oc.List == nil {
+				continue // default: panic
+			}
+			for _, se := range oc.List {
+				sid, ok := se.(*ast.Ident)
+				sn, known := r2BfdStateNum[r2SidName(sid, ok)]
+				if !known {
+					return fmt.Errorf("transition: unknown state case %s", c.Expr(se))
+				}
+				if len(oc.Body) != 1 {
+					return fmt.Errorf("transition: case %s is not a single switch", sid.Name)
+				}
+				inner, ok := oc.Body[0].(*ast.SwitchStmt)
+				if !ok {
+					return fmt.Errorf("transition: case %s is not a switch", sid.Name)
+				}
+				for _, ic := range inner.Body.List {
+					icc := ic.(*ast.CaseClause)
+					if icc.List == nil {
+						continue
+					}
+					res, ok := r2ReturnedIdent(icc.Body)
+					rn, known := r2BfdStateNum[res]
+					if !ok || !known {
+						return fmt.Errorf("transition: unexpected case body in state %s", sid.Name)
+					}
+					for _, ee := range icc.List {
+						eid, ok := ee.(*ast.Ident)
+						en, known := r2BfdEventNum[r2SidName(eid, ok)]
+						if !known {
+							return fmt.Errorf("transition: unknown event %s", c.Expr(ee))
+						}
+						rows = append(rows, fmt.Sprintf("(%d, %d, %d)", sn, en, rn))
+					}
+				}
+			}
+		}
+		var sb strings.Builder
+		sb.WriteString("namespace Scion.Gen.R2Bfd\n")
+		fmt.Fprintf(&sb, "/-- rows (state, event, new state) of `transition` in router/bfd/fsm.go, read off its nested switch;\n    states 0 AdminDown 1 Down 2 Init 3 Up, events 0..3 received state, 4 timer, 5 AdminUp -/\ndef transitionRows : List (Nat × Nat × Nat) := [%s]\n", strings.Join(rows, ", "))
+		for _, x := range [][3]string{
+			{"router/bfd", "Session", "IsUp"},
+			{"router/underlayproviders/udpip", "connectedLink", "IsUp"},
+			{"router/underlayproviders/udpip", "detachedLink", "IsUp"},
+			{"router/underlayproviders/udpip", "internalLink", "IsUp"},
+		} {
+			f, err := c.Func(x[0], x[1], x[2])
+			if err != nil {
+				return err
+			}
+			var body []string
+			for _, st := range f.Body.List {
+				if _, isIf := st.(*ast.IfStmt); isIf {
+					continue // Session.IsUp's test logging
+				}
+				body = append(body, c.Expr(st))
+			}
+			fmt.Fprintf(&sb, "/-- statements of `%s.%s` (logging `if` omitted) -/\ndef isUp_%s : List String := %s\n", x[1], x[2], x[1], LeanStrList(body))
+		}
+		pf, err := c.Func("router", "scionPacketProcessor", "process")
+		if err != nil {
+			return err
+		}
+		fmt.Fprintf(&sb, "/-- methods of the processor called by `process()`, in source order -/\ndef processCallees : List String := %s\n", LeanStrList(r2CalleesInOrder(pf, "p")))
+		vf, err := c.Func("router", "scionPacketProcessor", "validateEgressUp")
+		if err != nil {
+			return err
+		}
+		var conds []string
+		ast.Inspect(vf.Body, func(n ast.Node) bool {
+			if is, ok := n.(*ast.IfStmt); ok {
+				conds = append(conds, c.Expr(is.Cond))
+			}
+			return true
+		})
+		var types []string
+		ast.Inspect(vf.Body, func(n ast.Node) bool {
+			if se, ok := n.(*ast.SelectorExpr); ok && strings.HasPrefix(se.Sel.Name, "SCMPType") {
+				types = append(types, se.Sel.Name)
+			}
+			return true
+		})
+		fmt.Fprintf(&sb, "/-- `if` conditions of `validateEgressUp`, outermost first -/\ndef egressUpConds : List String := %s\n", LeanStrList(conds))
+		fmt.Fprintf(&sb, "/-- SCMP types named in `validateEgressUp`, in source order (then-branch first) -/\ndef egressUpTypes : List String := %s\n", LeanStrList(types))
+		for _, n := range []string{"SCMPTypeExternalInterfaceDown", "SCMPTypeInternalConnectivityDown"} {
+			v, err := c.ConstNat("pkg/slayers", n)
+			if err != nil {
+				return err
+			}
+			fmt.Fprintf(&sb, "/-- `slayers.%s` -/\ndef %s : Nat := %s\n", n, n, v)
+		}
+		sb.WriteString("end Scion.Gen.R2Bfd\n")
+		return c.Emit("R2Bfd.lean", sb.String())
+	})
+}
+
+func r2SidName(id *ast.Ident, ok bool) string {
+	if !ok || id == nil {
+		return ""
+	}
+	return id.Name
 }
